@@ -15,19 +15,21 @@
      model_build_succeeds, grand_roundtrip_total, text_roundtrip_total
    Proofs: proofs/Total_proofs.v.
 
-   WHAT REMAINS ASSUMED in grand_roundtrip_total besides inputs / oracles / zstd, and why:
-   - catalogue_in_dom of the catalogue the writer builds (stated on whatever run / create return, not assuming they
-     return): its batch_small part bounds the five serialized detail streams of every 50-sample batch AND their zstd
-     images by 2^32 - these depend on zc's output sizes and on how many descriptors a batch holds; its name part asks
-     name bytes in 1..127 (input-level, but stated on the catalogue); its descriptor part (group id < 2^32 - 1,
-     in_group_id < 2^31 - 1) is a consequence of the group counts and the oracle's range that is not derived here
-     (missing lemma: "in_group_id <= number of segments of the group", GroupStore_inv.inv_regs + inv_count lifted to
-     run).  Without it Collection.store_all itself can Panic (u32 arithmetic of ser_details), so it cannot be moved
-     behind "model_build = Ok b".
-   - parts_meta_u64 (every part's metadata < 2^64) and lenN file <= spec_max_off, on whatever model_build returns: the
-     metadata are raw lengths of packs (sum of LZ.encode output lengths - C09 proves the round trip, not a length
-     bound), of the serialized name streams (name lengths) and the caller's file_type_info value; the file length is a
-     sum of zstd output sizes.  Lists are unbounded in the model, so these cannot be derived. *)
+   WHAT REMAINS ASSUMED besides inputs / oracles / zstd, and why.
+   grand_roundtrip_total keeps three residual conditions, each stated on WHATEVER the writer returns (an implication
+   from "run / create / model_build = Ok x", never an assumption that they return):
+   - catalogue_in_dom of the catalogue create builds (C03's domain).  It cannot be moved behind "model_build = Ok b":
+     outside it Collection.store_all itself can Panic (u32 arithmetic of ser_details).  catalogue_in_dom_from_inputs
+     REDUCES it to: fewer than 2^32 samples / contigs per sample / 2 * (bases + 1) per contig, name bytes in 1..127
+     (input level); group ids of emitted pieces < 2^32 - 1 (oracle); fewer than 2^31 - 1 pieces per group (in_group_id
+     <= number of segments of the group: in_group_id_bound); and ONE residual, batch_small: the five serialized detail
+     streams of every 50-sample batch and their zstd images are shorter than 2^32 bytes - this depends on zc's output
+     sizes and on the varint / predictor coding of the descriptors, so it stays (grand_roundtrip_inputs has only this
+     and the next item left).
+   - parts_meta_u64 (every part's metadata < 2^64) and lenN file <= spec_max_off: the metadata are raw lengths of packs
+     (sums of LZ.encode output lengths - C09 proves the round trip, not a length bound), of the serialized name
+     streams (name lengths) and the caller's file_type_info value; the file length is a sum of zstd output sizes.
+     Lists are unbounded in the model, so these cannot be derived from the zstd round-trip hypothesis. *)
 From Coq Require Import Permutation.
 From Ragc Require Import Mach Consts_agcv3 Kmer Segment Pipeline SegReader GroupStore Collection Container AgcV3 ModelCreate.
 From Ragc Require Import Pipeline_proofs Compose_codecs Compose_proofs AgcV3_compose Grand_proofs Total_proofs.
@@ -53,6 +55,16 @@ Proof. intros. split; reflexivity. Qed.
 (* descriptor d occurs in the catalogue *)
 Example desc_in_def : forall (coll : Pipeline.collection) d,
   desc_in coll d = exists sd cd, In sd coll /\ In cd (snd sd) /\ In d (snd cd).
+Proof. reflexivity. Qed.
+
+Example name_bytes_ok_def : forall n : list N, name_bytes_ok n = Forall (fun b => (1 <= b < 128)%N) n.
+Proof. reflexivity. Qed.
+Example batch_small_def : forall zc ss k B,
+  Collection_proofs.batch_small zc ss k B =
+  match Details.ser_details ss k (Collection.segs_of B) with
+  | Ok vd => Forall (fun s => (lenN s < 4294967296)%N /\ (lenN (zc 19%N s) < 4294967296)%N) (Collection.streams_list vd)
+  | _ => True
+  end.
 Proof. reflexivity. Qed.
 
 (* ======================================================================== 1. create *)
@@ -296,6 +308,75 @@ Theorem text_roundtrip_total :
 Proof. exact Total_proofs.text_roundtrip_total_proof. Qed.
 Print Assumptions text_roundtrip_total.
 
+(* ======================================================================== 5. the catalogue domain, reduced *)
+(* the in_group_id the store registers for a segment never exceeds the number of segments pushed to its group *)
+Theorem in_group_id_bound :
+  forall lz_enc compress_ref compress_pack ops st g s id,
+  run lz_enc compress_ref compress_pack ops = Ok st -> In (s, id) (regs_of st g) ->
+  (id <= lenN (GroupStore.segs_of ops g))%N.
+Proof. exact Total_proofs.reg_id_bound. Qed.
+Print Assumptions in_group_id_bound.
+
+(* C03's domain condition on the catalogue the writer builds follows from input-level counts and name bytes, the
+   oracle's range, the per-group piece count and the stream-size condition batch_small alone *)
+Theorem catalogue_in_dom_from_inputs :
+  forall zc ecn k spl segsize dec grp sched (samples : list (name * list (name * list N)))
+         lz_enc compress_ref compress_pack gops st coll stored,
+  (1 <= k)%N ->
+  NoDup (map fst samples) /\ Forall (fun s => fst s <> [] /\ snd s <> []) samples ->
+  (forall i s c data j sg, nth_error (pushes_of samples) i = Some (s, c, data) ->
+     nth_error (split_at_splitters_with_size data spl k segsize) j = Some sg ->
+     decision_okb (N.to_nat k) sg (dec i j) = true) ->
+  (forall l, Permutation l (sched l)) ->
+  ops_carry (all_emit k spl segsize dec grp 0 (pushes_of samples)) gops ->
+  run lz_enc compress_ref compress_pack gops = Ok st ->
+  create ecn k spl segsize dec (store_addr k spl segsize dec grp (pushes_of samples) st) sched (pushes_of samples)
+    = Ok (coll, stored) ->
+  (lenN samples < 4294967296)%N ->
+  Forall (fun s => name_bytes_ok (fst s) /\ (lenN (snd s) < 4294967296)%N /\
+            Forall (fun c => name_bytes_ok (fst c) /\ (2 * (lenN (snd c) + 1) < 4294967296)%N) (snd s)) samples ->
+  (forall x, In x (all_emit k spl segsize dec grp 0 (pushes_of samples)) -> (fst x < 4294967295)%N) ->
+  (forall g, (lenN (filter (fun x => fst x =? g) (all_emit k spl segsize dec grp 0 (pushes_of samples))) < 2147483647)%N) ->
+  Forall (Collection_proofs.batch_small zc segsize k)
+    (Collection_proofs.chunks (length (mc_cat_of coll)) (N.to_nat W_CATALOGUE_BATCH) (mc_cat_of coll)) ->
+  catalogue_in_dom zc segsize k (mc_cat_of coll).
+Proof. exact Total_proofs.catalogue_in_dom_from_inputs_proof. Qed.
+Print Assumptions catalogue_in_dom_from_inputs.
+
+(* GRAND ROUND TRIP from inputs, oracles, zstd, and the size conditions that depend on zstd's / LZ's output sizes only *)
+Theorem grand_roundtrip_inputs :
+  forall (zc : N -> list N -> list N) (zd : list N -> option (list N)),
+  (forall l x, zd (zc l x) = Some x) -> (forall l x, zc l x <> []) ->
+  forall ecn k mml segsize level spl dec grp sched gops fti
+         (samples : list (name * list (name * list N))),
+  (1 <= k <= 32)%N -> (4 <= mml)%N -> (mml < two32)%N -> (segsize < two32)%N -> (segsize + k <= 2147483648)%N ->
+  NoDup (map fst samples) /\ Forall (fun s => fst s <> [] /\ snd s <> []) samples ->
+  Forall (fun s => NoDup (map fst (snd s))) samples ->
+  inputs_in_dom mml (pushes_of samples) ->
+  (lenN samples < 4294967296)%N ->
+  Forall (fun s => name_bytes_ok (fst s) /\ (lenN (snd s) < 4294967296)%N /\
+            Forall (fun c => name_bytes_ok (fst c) /\ (2 * (lenN (snd c) + 1) < 4294967296)%N) (snd s)) samples ->
+  (forall i s c data j sg, nth_error (pushes_of samples) i = Some (s, c, data) ->
+     nth_error (split_at_splitters_with_size data spl k segsize) j = Some sg ->
+     decision_okb (N.to_nat k) sg (dec i j) = true) ->
+  lz_contigs_nonempty (pushes_of samples) grp ->
+  (forall x, In x (all_emit k spl segsize dec grp 0 (pushes_of samples)) -> (fst x < 4294967295)%N) ->
+  (forall l, Permutation l (sched l)) ->
+  ops_carry (all_emit k spl segsize dec grp 0 (pushes_of samples)) gops ->
+  (forall g, (lenN (filter (fun x => fst x =? g) (all_emit k spl segsize dec grp 0 (pushes_of samples))) < 2147483647)%N) ->
+  (forall st coll stored,
+     run (mc_lz_enc mml) (mc_cref zc) (mc_cpack zc level) gops = Ok st ->
+     create ecn k spl segsize dec (mc_store_addr k spl segsize dec grp (pushes_of samples) st) sched (pushes_of samples)
+       = Ok (coll, stored) ->
+     Forall (Collection_proofs.batch_small zc segsize k)
+       (Collection_proofs.chunks (length (mc_cat_of coll)) (N.to_nat W_CATALOGUE_BATCH) (mc_cat_of coll))) ->
+  (forall b, model_build zc ecn k mml segsize level spl dec grp sched gops fti samples = Ok b ->
+     parts_meta_u64 (b_wops b) /\ (lenN (b_file b) <= spec_max_off)%N) ->
+  exists b, model_build zc ecn k mml segsize level spl dec grp sched gops fti samples = Ok b /\
+            decode zd (b_file b) = Ok samples.
+Proof. exact Total_proofs.grand_roundtrip_inputs_proof. Qed.
+Print Assumptions grand_roundtrip_inputs.
+
 (* ======================================================================== non-vacuity
    the instance of props/C01G.v grand_roundtrip_nonvacuous (two samples, three contigs, k = 3, splitter AAA, a split
    segment, an AssignToLeft, reversed arrival order, raw group 3 and LZ groups 16 / 17, two store rounds, toy zstd):
@@ -319,18 +400,63 @@ Example grand_roundtrip_total_nonvacuous :
             (mc_store_addr 3 (set_of_list [0]) 60 C01.ex_dec C01.ex_grp (pushes_of C01.ex_samples) st) (@rev registration)
             (pushes_of C01.ex_samples) = Ok (coll, stored) ->
      catalogue_in_dom SegCompress_proofs.toy_zc 60 3 (mc_cat_of coll)) /\
-  (forall b, C01G.ex_build = Ok b -> parts_meta_u64 (b_wops b) /\ (lenN (b_file b) <= spec_max_off)%N).
+  (forall b, C01G.ex_build = Ok b -> parts_meta_u64 (b_wops b) /\ (lenN (b_file b) <= spec_max_off)%N) /\
+  (* the additional hypotheses of catalogue_in_dom_from_inputs / grand_roundtrip_inputs *)
+  (lenN C01.ex_samples < 4294967296)%N /\
+  Forall (fun s : name * list (name * list N) => name_bytes_ok (fst s) /\ (lenN (snd s) < 4294967296)%N /\
+            Forall (fun c : name * list N => name_bytes_ok (fst c) /\ (2 * (lenN (snd c) + 1) < 4294967296)%N) (snd s)) C01.ex_samples /\
+  (forall x, In x (all_emit 3 (set_of_list [0]) 60 C01.ex_dec C01.ex_grp 0 (pushes_of C01.ex_samples)) -> (fst x < 4294967295)%N) /\
+  (forall g, (lenN (filter (fun x : N * seg_in => fst x =? g)
+                      (all_emit 3 (set_of_list [0]) 60 C01.ex_dec C01.ex_grp 0 (pushes_of C01.ex_samples))) < 2147483647)%N) /\
+  (forall st coll stored,
+     run (mc_lz_enc 4) (mc_cref SegCompress_proofs.toy_zc) (mc_cpack SegCompress_proofs.toy_zc 17) C01.ex_store_ops = Ok st ->
+     create (fun c => c) 3 (set_of_list [0]) 60 C01.ex_dec
+            (mc_store_addr 3 (set_of_list [0]) 60 C01.ex_dec C01.ex_grp (pushes_of C01.ex_samples) st) (@rev registration)
+            (pushes_of C01.ex_samples) = Ok (coll, stored) ->
+     Forall (Collection_proofs.batch_small SegCompress_proofs.toy_zc 60 3)
+       (Collection_proofs.chunks (length (mc_cat_of coll)) (N.to_nat W_CATALOGUE_BATCH) (mc_cat_of coll))).
 Proof.
   destruct C01G.grand_roundtrip_nonvacuous as (b0 & Hb0 & Hzd & Hzc & Hin & Hdom & Hdec & Hlz & _ & Hsched & Hcarry & Hcat & Hmeta & Hfile & _).
-  split; [exact Hzd|]. split; [exact Hzc|]. split; [exact Hin|].
-  split; [repeat constructor; cbn; intuition discriminate|].
-  split; [exact Hdom|]. split; [exact Hdec|]. split; [exact Hlz|]. split; [exact Hsched|]. split; [exact Hcarry|].
-  split. { apply Total_proofs.per_group_from_total. vm_compute. reflexivity. }
-  split.
-  - intros st coll stored Hrun Hc. unfold C01G.ex_build in Hb0.
+  assert (HcatAll : forall st coll stored,
+     run (mc_lz_enc 4) (mc_cref SegCompress_proofs.toy_zc) (mc_cpack SegCompress_proofs.toy_zc 17) C01.ex_store_ops = Ok st ->
+     create (fun c => c) 3 (set_of_list [0]) 60 C01.ex_dec
+            (mc_store_addr 3 (set_of_list [0]) 60 C01.ex_dec C01.ex_grp (pushes_of C01.ex_samples) st) (@rev registration)
+            (pushes_of C01.ex_samples) = Ok (coll, stored) ->
+     catalogue_in_dom SegCompress_proofs.toy_zc 60 3 (mc_cat_of coll)).
+  { intros st coll stored Hrun Hc. unfold C01G.ex_build in Hb0.
     destruct (model_build_inv _ _ _ _ _ _ _ _ _ _ _ _ _ _ Hb0) as (st' & coll' & stored' & cw & a & Hrun' & Hc' & _ & Eb).
     rewrite Hrun in Hrun'. apply Grand_proofs.ok_inj in Hrun'. subst st'.
     rewrite Hc in Hc'. apply Grand_proofs.ok_inj in Hc'.
-    assert (Ecoll : coll = coll') by (exact (f_equal fst Hc')). rewrite Eb in Hcat. cbn [b_coll] in Hcat. rewrite Ecoll. exact Hcat.
-  - intros b Hb. rewrite Hb0 in Hb. apply Grand_proofs.ok_inj in Hb. subst b. split; [exact Hmeta|exact Hfile].
+    assert (Ecoll : coll = coll') by (exact (f_equal fst Hc')). rewrite Eb in Hcat. cbn [b_coll] in Hcat. rewrite Ecoll. exact Hcat. }
+  assert (Hlen8 : lenN (all_emit 3 (set_of_list [0]) 60 C01.ex_dec C01.ex_grp 0 (pushes_of C01.ex_samples)) = 8%N)
+    by (vm_compute; reflexivity).
+  split; [exact Hzd|]. split; [exact Hzc|]. split; [exact Hin|].
+  split; [repeat constructor; cbn; intuition discriminate|].
+  split; [exact Hdom|]. split; [exact Hdec|]. split; [exact Hlz|]. split; [exact Hsched|]. split; [exact Hcarry|].
+  split. { apply Total_proofs.per_group_from_total. rewrite Hlen8. reflexivity. }
+  split; [exact HcatAll|].
+  split. { intros b Hb. rewrite Hb0 in Hb. apply Grand_proofs.ok_inj in Hb. subst b. split; [exact Hmeta|exact Hfile]. }
+  split; [vm_compute; reflexivity|].
+  split. { assert (E : forallb (fun s : name * list (name * list N) =>
+                          forallb (fun b => (1 <=? b) && (b <? 128)) (fst s) && (lenN (snd s) <? 4294967296) &&
+                          forallb (fun c : name * list N => forallb (fun b => (1 <=? b) && (b <? 128)) (fst c) &&
+                                                            (2 * (lenN (snd c) + 1) <? 4294967296)) (snd s)) C01.ex_samples = true)
+             by (vm_compute; reflexivity).
+           assert (Hnb : forall n : list N, forallb (fun b => (1 <=? b) && (b <? 128)) n = true -> name_bytes_ok n).
+           { intros n Hn. eapply Collection_proofs.forallb_Forall; [|exact Hn]. intros x Hx. cbn beta in Hx.
+             apply andb_true_iff in Hx. destruct Hx as [H1 H2]. apply N.leb_le in H1. apply N.ltb_lt in H2. split; assumption. }
+           eapply Collection_proofs.forallb_Forall; [|exact E]. intros s Hs. cbn beta in Hs.
+           apply andb_true_iff in Hs. destruct Hs as [Hs H3]. apply andb_true_iff in Hs. destruct Hs as [H1 H2].
+           split; [exact (Hnb _ H1)|]. split; [apply N.ltb_lt; exact H2|].
+           eapply Collection_proofs.forallb_Forall; [|exact H3]. intros c Hc. cbn beta in Hc.
+           apply andb_true_iff in Hc. destruct Hc as [H4 H5]. split; [exact (Hnb _ H4)|apply N.ltb_lt; exact H5]. }
+  split. { assert (E : forallb (fun x : N * seg_in => fst x <? 4294967295)
+                         (all_emit 3 (set_of_list [0]) 60 C01.ex_dec C01.ex_grp 0 (pushes_of C01.ex_samples)) = true)
+             by (vm_compute; reflexivity).
+           rewrite forallb_forall in E. intros x Hx. apply N.ltb_lt. exact (E x Hx). }
+  split. { intro g. apply N.le_lt_trans with (lenN (all_emit 3 (set_of_list [0]) 60 C01.ex_dec C01.ex_grp 0 (pushes_of C01.ex_samples))).
+           - apply Total_proofs.per_group_le_total.
+           - rewrite Hlen8. reflexivity. }
+  intros st coll stored Hrun Hc. destruct (HcatAll st coll stored Hrun Hc) as (_ & _ & Hb).
+  eapply Forall_impl; [|exact Hb]. intros B (_ & _ & HB). exact HB.
 Qed.
